@@ -7,7 +7,7 @@ ID = 'C03'
 PROPS_FILE = 'theories/Props/C03.v'
 PROPS_MODULE = 'Props.C03'
 COQ_TARGETS = ['theories/Extract/ExtractSyntax.vo']
-REQUIRED_THEOREMS = []
+REQUIRED_THEOREMS = ['C03_ok_iff_no_junk', 'C03_accounting', 'C03_order', 'C03_admitted_not_junk', 'C03_runtime_ok_iff_no_junk', 'C03_runtime_accounting', 'C03_runtime_order', 'C03_runtime_admitted_not_junk']
 MODEL = 'syn'
 HARNESS_BINS = ['syn_run']
 ANCHORS = ['fluent-syntax/src/parser/core.rs', 'fluent-syntax/src/parser/runtime.rs', 'fluent-syntax/src/parser/helper.rs',
